@@ -34,6 +34,10 @@ CHECKS = {
    technique="full enumeration of the 56 ordered protocol pairs x {verbatim, header rewritten} x shared key material x layer, on the real crate",
    text="Every ordered pair (X, Y), X != Y: a token issued by X is presented to Y's three entry points verbatim and with its header rewritten, using the same key bytes wherever both protocols accept them (32-byte symmetric keys, Ed25519 keys across v2/v4, public-key bytes as symmetric key and back). All must be rejected; X's own entry point accepts (control).",
    note=A_NOTE),
+ "C08": dict(engine="A-choice-tree", design_ref="5/C08",
+   technique="exhaustive enumeration of the core-layer input space (deviation bound 2 + full product) with every case compared, in both directions, against an independent executable transcription of the PASETO specification pinned to all official vectors",
+   text="Every enumerated (protocol, key, nonce seed, message, footer, assertion) is run through the library and through R1 (pure-Python Version1-4.md + Common.md): local tokens must be byte-identical and decrypt under R1; library-signed public tokens must verify under R1 and have exactly the specification's textual shape (footer segment iff non-empty footer); R1-made tokens (incl. RFC 8032 / RFC 6979 / PSS signatures) must be accepted by the library with the original message.",
+   note="R1 is the trusted oracle: it shares no code with the crate or its dependencies (hashlib + own AES/ChaCha/Poly1305/Ed25519/P-384/RSA-PSS), and its self-test recomputes all 53 official vectors before every run. " + A_NOTE),
  "C09": dict(engine="A-choice-tree", design_ref="5/C09",
    technique="exhaustive enumeration of structured hostile inputs (every decoded length 0..=400 behind each header, every token prefix, all strings of 0..6 segments over a 7-element alphabet, 1 MiB strings, hostile payloads, every hex length 0..=200) on all 24 entry points under catch_unwind with overflow checks",
    text="All 24 decrypt/verify/parse entry points plus Key::<N>::try_from(&str) are called on every element of the listed input families; any panic (located by file:line) is a violation, as is a wrong-length hex key reported as success.",
@@ -75,7 +79,7 @@ def main():
             "add_only": True,
         },
         "engines": [
-            {"name": "A-choice-tree", "path": "harness/src/explore.rs", "serves_properties": ["C01","C02","C03","C04","C05","C06","C07","C09"], "kind_free_text": "stateless exhaustive enumeration of a tree of named finite choice points, one execution of the real crate per path; deviation-bounded and full-product modes"},
+            {"name": "A-choice-tree", "path": "harness/src/explore.rs", "serves_properties": ["C01","C02","C03","C04","C05","C06","C07","C08","C09"], "kind_free_text": "stateless exhaustive enumeration of a tree of named finite choice points, one execution of the real crate per path; deviation-bounded and full-product modes"},
             {"name": "B-stateright", "path": "harness/src/models", "serves_properties": [], "kind_free_text": "stateright 0.31 BFS over a reference model; every transition replays the call history on the real object"},
             {"name": "C-lattice", "path": "c20/run.py", "serves_properties": ["C20"], "kind_free_text": "explicit enumeration of feature configurations / generated client programs with cargo as transition function"},
         ],
